@@ -636,9 +636,13 @@ class MarkdownNormalizer(Renderer):
 
     def render_code_span(self, element: inline.CodeSpan) -> str:
         text = element.children
+        # The delimiter must be longer than any run of backticks in the content, and content that
+        # begins or ends with a backtick is padded with a space (CommonMark code span rules).
+        longest_run = max((len(run) for run in re.findall(r"`+", text)), default=0)
+        delimiter = "`" * (longest_run + 1)
         if text and (text[0] == "`" or text[-1] == "`"):
-            return f"`` {text} ``"
-        return f"`{element.children}`"
+            return f"{delimiter} {text} {delimiter}"
+        return f"{delimiter}{text}{delimiter}"
 
     # --- GFM Renderer Methods ---
 
